@@ -191,6 +191,11 @@ fn soundness(rng: &mut Rng, st: &mut Stats) {
         for s in &lvl.subs {
             let k = rng.range(1, s.name.chars().count());
             words.push(s.name.chars().take(k).collect());
+            // a prefix of an alias as well (hidden ones must stay behind visible candidates)
+            if let Some((al, _)) = s.aliases.first() {
+                let k = rng.range(1, al.chars().count());
+                words.push(al.chars().take(k).collect());
+            }
         }
         words.push("--zz".into());
         words.push("zz".into());
@@ -220,6 +225,27 @@ fn soundness(rng: &mut Rng, st: &mut Stats) {
                 None => String::new(),
             };
             let any_visible = cands.iter().any(|c| !c.is_hide_set());
+            // hidden by the *definition* (not by the candidate's own flag): a hidden alias of a
+            // subcommand / a hidden subcommand / a hidden long alias / a hidden argument
+            let def_hidden = |v: &str, id: &str| -> bool {
+                if let Some(sname) = id.strip_prefix("command::") {
+                    lvl.subs.iter().any(|s| s.name == sname && (s.has(Setting::Hide) || s.aliases.iter().any(|(a, vis)| a == v && !*vis)))
+                } else if let Some(aid) = id.strip_prefix("arg::") {
+                    all_args.iter().any(|a| a.id == aid && (a.hide || a.aliases.iter().any(|(l, vis)| format!("--{}", l) == v && !*vis)))
+                } else {
+                    false
+                }
+            };
+            let any_def_visible = cands.iter().any(|c| c.get_id().map(|id| !def_hidden(&c.get_value().to_string_lossy(), id)).unwrap_or(true));
+            if any_def_visible {
+                if let Some(c) = cands.iter().find(|c| c.get_id().map(|id| def_hidden(&c.get_value().to_string_lossy(), id)).unwrap_or(false)) {
+                    st.violation(
+                        format!("engine:hidden-offered-next-to-visible{}", suffix),
+                        format!("{} ({}) is hidden by the definition but offered next to visible candidates {:?} | {}", c.get_value().to_string_lossy(), c.get_id().unwrap(), cands.iter().map(|c| c.get_value().to_string_lossy().into_owned()).collect::<Vec<_>>(), ctx()),
+                    );
+                    continue;
+                }
+            }
             for c in &cands {
                 let v = c.get_value().to_string_lossy().into_owned();
                 let Some(id) = c.get_id() else { continue };
